@@ -109,6 +109,39 @@ def case_regression(N, Dw, Dy, sub, pdiag=False):
     return Case(label, fn)
 
 
+def case_sensor_reuse(cls, N, Dw, Dy):
+    """ONE conditional object (a sensor with fixed M, b) reused for all observations, its noise covariance replaced before each
+    use with update_Sigma: the sequential posterior and evidence equal the dense reference with per-observation noise, in
+    any order"""
+    label = f"sensor-reuse/{cls}/N{N}/Dw{Dw}/Dy{Dy}"
+    def fn(m):
+        rng = gen.rng_path(m.seed, label)
+        fails = []
+        diag = (cls == "diag")
+        prior = mk_pdf(m, rng, 1, Dw)
+        M = rng.standard_normal((1, Dy, Dw)); b = rng.standard_normal((1, Dy))
+        Ss = gen.pd_batch(rng, N, Dy, diag=diag); ys = gen.points(rng, N, Dy)
+        mu_ref, S_ref, lml_ref = dense_posterior(prior.mu[0], prior.Sigma[0], [M[0]] * N, [b[0]] * N, list(Ss), list(ys))
+        params = dict(N=N, Dx=Dw, Dy=Dy, cls=cls)
+        sensor = m.cond(1, Dy, Dw, M, b, Sigma=gen.pd_batch(rng, 1, Dy, diag=diag), diag=diag)
+        cur = prior.reg; ev = 0.0
+        for i in rng.permutation(N):
+            m.update_sigma(sensor, Ss[i:i + 1])
+            yi = m.arr(ys[i:i + 1])
+            pred = m.transform("marginal", sensor, cur)
+            ev += float(np.asarray(m.regs[m.evalln(pred, yi)])[0, 0])
+            post = m.transform("conditional", sensor, cur)
+            cur = m.condition_on_x(post, yi)
+        o = m.regs.get(cur)
+        if o is None:
+            fails.append(failure(PROPERTY, "posterior:sensor-reuse", f"raised: {m.impl[-1][1:]}", params=params)); return fails
+        fail_if(fails, PROPERTY, "posterior:sensor-reuse:mu", "posterior mean differs from the dense reference", np.asarray(o.mu)[0], mu_ref, tol=1e-7, params=params)
+        fail_if(fails, PROPERTY, "posterior:sensor-reuse:Sigma", "posterior covariance differs from the dense reference", np.asarray(o.Sigma)[0], S_ref, tol=1e-7, params=params)
+        fail_if(fails, PROPERTY, "evidence:sensor-reuse", "sum of predictive log-densities != log marginal likelihood (dense reference)", ev, lml_ref, tol=1e-7, params=params)
+        return fails
+    return Case(label, fn)
+
+
 def case_kalman(T, Dz, Dy, sub, pdiag=False):
     label = f"kalman/T{T}/Dz{Dz}/Dy{Dy}/{sub}" + ("/pdiag" if pdiag else "")
     def fn(m):
@@ -170,6 +203,7 @@ def cases(seed, tier):
     kg = [(4, 2, 1), (3, 1, 2)] + [(int(rng.integers(2, 13)), int(rng.integers(1, 4)), int(rng.integers(1, 4))) for _ in range(1 if tier == "quick" else 8)]
     for i, (T, Dz, Dy) in enumerate(kg):
         out.append(case_kalman(T, Dz, Dy, i))
+    out.append(case_sensor_reuse("diag", 3, 2, 2)); out.append(case_sensor_reuse("full", 3, 3, 1))
     out.append(case_regression(3, 3, 2, "d", pdiag=True))
     out.append(case_kalman(3, 2, 2, "d", pdiag=True))
     if tier != "quick":
